@@ -6,7 +6,7 @@ PROPS = {
     "C02": {
         "runs": {
             "quick": [{"harness": "rectil", "args": ["--scope", "pairs", "--g", 5]},
-                      {"harness": "rectil", "args": ["--scope", "triples", "--g", 4, "--sp_hi", 0]},
+                      {"harness": "rectil", "args": ["--scope", "triples", "--g", 4, "--sp_lo", 1, "--sp_hi", 1]},
                       {"harness": "rectil", "args": ["--scope", "walks", "--g", 4, "--nmax", 5, "--sp_lo", 1, "--sp_hi", 1]}],
             "thorough": [{"harness": "rectil", "args": ["--scope", "pairs", "--g", 6]},
                          {"harness": "rectil", "args": ["--scope", "triples", "--g", 4]},
